@@ -420,6 +420,10 @@ func main() {
 			}
 			continue
 		}
+		if r.exit == 3 && strings.Contains(r.out, "INCONCLUSIVE-IN-CHILD") {
+			problems = append(problems, name+": "+lastLineWith(r.out, "INCONCLUSIVE-IN-CHILD"))
+			continue
+		}
 		if r.timedOut || strings.Contains(r.out, "test timed out") {
 			problems = append(problems, name+": timed out")
 			fmt.Printf("--- output of %s (timeout) ---\n%s\n", name, tail(r.out, 40))
